@@ -944,6 +944,15 @@ def node_level(ctx):
             ev("M1", "qstart", lv="node")
             M.send("list")
             e2 = advance(M, mstop)
+
+            def verdicts(o2):
+                res["answers"].append(("M1", o2))
+                for n in o2.get("nodes", []):
+                    ev("M1", "verdict", lv="node", v=n["s"] if n["s"] in ("Alive", "Dead") else "Undefined")
+                    ev("M1", "qstart", lv="node")
+                ev("M1", "verdict", lv="node", v="DoesNotExist")   # nothing (more) is listed
+            if e2[0] == "out":
+                verdicts(e2[1])        # the observer finished while the node was still stopped
             if not gdone:
                 G.token("g")
                 G.wait_out()
@@ -951,14 +960,8 @@ def node_level(ctx):
             if e2[0] == "step":
                 M.token("g")
                 o2 = M.wait_out()
-            else:
-                o2 = e2[1] if e2[0] == "out" else None
-            if o2 is not None:
-                res["answers"].append(("M1", o2))
-                for n in o2.get("nodes", []):
-                    ev("M1", "verdict", lv="node", v=n["s"] if n["s"] in ("Alive", "Dead") else "Undefined")
-                    ev("M1", "qstart", lv="node")
-                ev("M1", "verdict", lv="node", v="DoesNotExist")   # nothing (more) is listed
+                if o2 is not None:
+                    verdicts(o2)
         except shimctl.Hang as h:
             res["hang"] = str(h)
         finally:
